@@ -116,7 +116,7 @@ def app_runs(chk, app):
 def run(chk):
     if shutil.which("mpirun") is None or shutil.which("mpicxx") is None:
         raise vlib.MachineryError("MPI toolchain (mpicxx/mpirun) not available")
-    binary, app, gmat, gvec = vlib.build(["c13_synch", "c13_poisson_app", "c13_gmat", "c13_gvec"], variant="mpi")
+    binary, app, gmat, gvec, gxfer = vlib.build(["c13_synch", "c13_poisson_app", "c13_gmat", "c13_gvec", "c13_xfer"], variant="mpi")
     chk.known = vlib.load_known("C13")
     thorough = chk.tier == "thorough"
     only_ext = os.environ.get("C13_ONLY", "") == "ext"      # development aid: skip the parts that were there before the extension
@@ -185,7 +185,7 @@ def run(chk):
     if os.environ.get("C13_ONLY", "") != "ext":
         app_runs(chk, app)
     # ---- extension: matrices, blocked/tuple vectors, scalar tickets, muxer/splitter, filters (lib/c13x.py) -------------
-    total += c13x.run_ext(chk, gmat, gvec)
+    total += c13x.run_ext(chk, gmat, gvec, gxfer)
     chk.traces = total
     chk.exhaustive = True
     chk.rule = ("model checking: all dof-to-rank overlap hypergraphs for 3 ranks x 3 dofs (thorough also 4 ranks) x all interleavings and "
